@@ -32,6 +32,14 @@ func main() {
 		seed, _ = strconv.ParseInt(s, 10, 64)
 	}
 
+	// watchdog: a check that cannot finish must not pass silently
+	time.AfterFunc(240*time.Second, func() {
+		fmt.Println("UNDECIDED: analysis did not finish within 240s")
+		for _, p := range propList(*prop) {
+			fmt.Printf("VIOLATION property=%s replay=-\n", p)
+		}
+		os.Exit(1)
+	})
 	e, err := Load(*dir)
 	if err != nil {
 		// a check that cannot load the program must not pass
